@@ -1,4 +1,664 @@
 import SqliteDissect.Model.Tree
 import SqliteDissect.Spec.CellFmt
 namespace SqliteDissect.Proofs.CellArith
+open SqliteDissect SqliteDissect.Model
+
+/-! ### payload constants -/
+
+theorem payloadConst_eq (u k : Nat) (hk : k = 32 ∨ k = 64) (hu : 512 ≤ u) :
+    payloadConst u k = (((u - 12) * k / 255 - 23 : Nat) : Int) := by
+  unfold payloadConst
+  rcases hk with rfl | rfl <;> simp only [] <;> split <;> (try split) <;> omega
+
+theorem payload_constants (u : Nat) (hu : 512 ≤ u) :
+    payloadConst u 32 = (Spec.minLocal u : Int) ∧ payloadConst u 64 = (Spec.maxLocalIndex u : Int) := by
+  constructor
+  · rw [payloadConst_eq u 32 (Or.inl rfl) hu]; rfl
+  · rw [payloadConst_eq u 64 (Or.inr rfl) hu]; rfl
+
+/-! ### local payload -/
+
+theorem minLocal_le (u : Nat) (hu : 512 ≤ u) : Spec.minLocal u ≤ u - 35 ∧ Spec.minLocal u ≤ Spec.maxLocalIndex u := by
+  unfold Spec.minLocal Spec.maxLocalIndex; omega
+
+theorem localPayload_eq (u : Nat) (hu : 512 ≤ u) (L : Nat) (hL : Spec.minLocal u ≤ L) (p : Nat) :
+    localPayload u (L : Int) (p : Int) =
+      ((Spec.localSize u L p : Int), decide (L < p), if L < p then (Spec.minLocal u : Int) else 0) := by
+  unfold localPayload Spec.localSize
+  rw [(payload_constants u hu).1]
+  by_cases h : L < p
+  · have h1 : (p : Int) > (L : Int) := by omega
+    have h2 : ¬ p ≤ L := by omega
+    have e1 : (p : Int) - (Spec.minLocal u : Int) = ((p - Spec.minLocal u : Nat) : Int) := by omega
+    have e2 : (u : Int) - 4 = ((u - 4 : Nat) : Int) := by omega
+    simp only [h1, h2, h, if_true, if_false, decide_true, e1, e2, ← Int.natCast_emod, ← Int.natCast_add,
+      gt_iff_lt, Int.ofNat_lt]
+    by_cases h3 : Spec.minLocal u + (p - Spec.minLocal u) % (u - 4) ≤ L
+    · have h4 : ¬ L < Spec.minLocal u + (p - Spec.minLocal u) % (u - 4) := by omega
+      simp only [h3, h4, if_true, if_false]
+    · have h4 : L < Spec.minLocal u + (p - Spec.minLocal u) % (u - 4) := by omega
+      simp only [h3, h4, if_true, if_false]
+  · have h1 : ¬ (p : Int) > (L : Int) := by omega
+    have h2 : p ≤ L := by omega
+    simp only [h1, h2, h, if_true, if_false, decide_false]
+
+theorem table_local_eq_spec (u : Nat) (hu : 512 ≤ u) (p : Nat) :
+    localPayload u ((u : Int) - 35) (p : Int) =
+      ((Spec.localSize u (Spec.maxLeaf u) p : Int), decide (Spec.maxLeaf u < p),
+        if Spec.maxLeaf u < p then (Spec.minLocal u : Int) else 0) := by
+  have e : (u : Int) - 35 = ((Spec.maxLeaf u : Nat) : Int) := by unfold Spec.maxLeaf; omega
+  rw [e]
+  exact localPayload_eq u hu _ (by unfold Spec.maxLeaf; exact (minLocal_le u hu).1) p
+
+theorem index_local_eq_spec (u : Nat) (hu : 512 ≤ u) (p : Nat) :
+    localPayload u (payloadConst u 64) (p : Int) =
+      ((Spec.localSize u (Spec.maxLocalIndex u) p : Int), decide (Spec.maxLocalIndex u < p),
+        if Spec.maxLocalIndex u < p then (Spec.minLocal u : Int) else 0) := by
+  rw [(payload_constants u hu).2]
+  exact localPayload_eq u hu _ (minLocal_le u hu).2 p
+
+theorem local_bounds (u : Nat) (_hu : 512 ≤ u) (maxLoc : Nat) (hm : Spec.minLocal u ≤ maxLoc) (p : Nat)
+    (hp : maxLoc < p) :
+    Spec.minLocal u ≤ Spec.localSize u maxLoc p ∧ Spec.localSize u maxLoc p ≤ maxLoc ∧
+      Spec.localSize u maxLoc p < p := by
+  unfold Spec.localSize
+  have h2 : ¬ p ≤ maxLoc := by omega
+  simp only [h2, if_false]
+  split <;> omega
+
+/-! ### expected overflow -/
+
+theorem ceil_props (k n : Nat) (hk : 0 < k) (hn : 0 < n) :
+    0 < (n + k - 1) / k ∧ ((n + k - 1) / k - 1) * k < n ∧ n ≤ (n + k - 1) / k * k := by
+  have h1 := Nat.div_add_mod (n + k - 1) k
+  have h2 := Nat.mod_lt (n + k - 1) hk
+  have h3 : 0 < (n + k - 1) / k := Nat.div_pos (by omega) hk
+  rw [Nat.mul_comm] at h1
+  refine ⟨h3, ?_, by omega⟩
+  rw [Nat.sub_mul]; omega
+
+theorem overflow_fill_bounds (u : Nat) (hu : 4 < u) (n : Nat) (hn : 0 < n) :
+    0 < Spec.lastOverflowFill u n ∧ Spec.lastOverflowFill u n ≤ u - 4 ∧
+      (Spec.overflowPages u n - 1) * (u - 4) + Spec.lastOverflowFill u n = n ∧ 0 < Spec.overflowPages u n := by
+  unfold Spec.lastOverflowFill Spec.overflowPages
+  obtain ⟨h1, h2, h3⟩ := ceil_props (u - 4) n (by omega) hn
+  generalize (n + (u - 4) - 1) / (u - 4) = c at *
+  rw [Nat.sub_mul] at *
+  omega
+
+theorem ceoLoop_eq (ps : Nat) (hps : 4 < ps) : ∀ (fuel n pages last : Nat), 0 < n → n ≤ fuel →
+    ceoLoop ps fuel n pages last =
+      some (pages + (n + (ps - 4) - 1) / (ps - 4), n - ((n + (ps - 4) - 1) / (ps - 4) - 1) * (ps - 4)) := by
+  intro fuel
+  induction fuel with
+  | zero => intro n _ _ hn hf; omega
+  | succ fuel ih =>
+    intro n pages last hn hf
+    unfold ceoLoop
+    simp only [Generated.OVERFLOW_HEADER_LENGTH]
+    by_cases h : n + 4 > ps
+    · simp only [h, if_true]
+      rw [ih _ _ _ (by omega) (by omega)]
+      have e : n + (ps - 4) - 1 = (n + 4 - ps + (ps - 4) - 1) + (ps - 4) := by omega
+      have e2 : (n + (ps - 4) - 1) / (ps - 4) = (n + 4 - ps + (ps - 4) - 1) / (ps - 4) + 1 := by
+        rw [e, Nat.add_div_right _ (by omega)]
+      rw [e2]
+      obtain ⟨h1, h2, h3⟩ := ceil_props (ps - 4) (n + 4 - ps) (by omega) (by omega)
+      generalize (n + 4 - ps + (ps - 4) - 1) / (ps - 4) = c at *
+      have e3 : (c + 1 - 1) * (ps - 4) = (c - 1) * (ps - 4) + (ps - 4) := by
+        rcases c with _ | c
+        · omega
+        · simp only [Nat.add_sub_cancel]; rw [Nat.succ_mul]
+      rw [e3]
+      congr 2 <;> omega
+    · simp only [h, if_false]
+      have e : (n + (ps - 4) - 1) / (ps - 4) = 1 := by
+        apply Nat.div_eq_of_lt_le <;> omega
+      rw [e]; simp
+
+theorem overflow_closed_form (u : Nat) (hu : 4 < u) (n : Nat) (hn : 0 < n) :
+    calcExpectedOverflow (n : Int) u =
+      some (Spec.overflowPages u n, (Spec.lastOverflowFill u n : Int)) := by
+  unfold calcExpectedOverflow Spec.lastOverflowFill Spec.overflowPages
+  have h1 : (n : Int) > 0 := by omega
+  have h2 : ¬ u ≤ 4 := by omega
+  simp only [h1, h2, if_true, if_false, Generated.OVERFLOW_HEADER_LENGTH, Int.toNat_natCast]
+  rw [ceoLoop_eq u hu n n 0 n hn (Nat.le_refl _)]
+  simp only [Option.map_some, Nat.zero_add]
+
+theorem overflow_none (u : Nat) (n : Int) (hn : n ≤ 0) : calcExpectedOverflow n u = some (0, n) := by
+  unfold calcExpectedOverflow
+  have h1 : ¬ n > 0 := by omega
+  simp only [h1, if_false]
+
+/-! ### pointer-map pages -/
+
+theorem mod_zero_iff (a m : Nat) : a % m = 0 ↔ a / m * m = a := by
+  have := Nat.div_add_mod a m
+  rw [Nat.mul_comm] at this
+  omega
+
+theorem ptrmap_iff (D E : Nat) (p n : Nat) (_hE : 0 < E) :
+    (p, n) ∈ Spec.ptrmapPages D E ↔
+      (2 ≤ p ∧ p < D ∧ (p - 2) / (E + 1) * (E + 1) + 2 = p ∧ n = min E (D - p)) := by
+  unfold Spec.ptrmapPages
+  simp only [List.mem_filterMap, List.mem_range]
+  constructor
+  · rintro ⟨i, hi, h⟩
+    split at h
+    · rename_i hc
+      simp only [Option.some.injEq, Prod.mk.injEq] at h
+      obtain ⟨rfl, rfl⟩ := h
+      refine ⟨hc.1, hc.2.1, ?_, rfl⟩
+      have := (mod_zero_iff _ _).1 hc.2.2
+      omega
+    · cases h
+  · rintro ⟨h1, h2, h3, rfl⟩
+    refine ⟨p - 1, by omega, ?_⟩
+    have e : p - 1 + 1 = p := by omega
+    simp only [e]
+    have h4 : (p - 2) % (E + 1) = 0 := (mod_zero_iff _ _).2 (by omega)
+    simp only [h1, h2, h4, and_self, if_true]
+
+/-- explicit enumeration of pointer-map pages from position `p` -/
+def enum (D E : Nat) : Nat → Nat → List (Nat × Nat)
+  | 0, _ => []
+  | fuel+1, p => if p < D then (p, min E (D - p)) :: enum D E fuel (p + E + 1) else []
+
+theorem enum_nil (D E fuel p : Nat) (h : D ≤ p) : enum D E fuel p = [] := by
+  cases fuel with
+  | zero => rfl
+  | succ f => unfold enum; simp only [Nat.not_lt.2 h, if_false]
+
+theorem loop_eq_enum (D E : Nat) (hmod : (D - 2) % (E + 1) ≠ 0) (hD : 2 ≤ D) :
+    ∀ (fuel p n : Nat) (acc : List (Nat × Nat)), p = n * (E + 1) + 2 → 0 < fuel → D < fuel + p →
+      ptrmapPlanLoop D E fuel p n acc = .ok (acc ++ enum D E fuel p) := by
+  intro fuel
+  induction fuel with
+  | zero =>
+    intro p n acc hp h0 hf
+    omega
+  | succ fuel ih =>
+    intro p n acc hp _ hf
+    unfold ptrmapPlanLoop enum
+    by_cases hpD : p < D
+    · simp only [hpD, if_true]
+      have hne : ¬ ((n + 1) * E + 2 + (n + 1) = D) := by
+        intro h
+        apply hmod
+        have : D - 2 = (n + 1) * (E + 1) := by rw [Nat.mul_add, Nat.mul_one]; omega
+        rw [this, Nat.mul_mod_left]
+      have e1 : (n + 1) * E + 2 + (n + 1) = p + E + 1 := by
+        rw [hp, Nat.add_mul, Nat.mul_add, Nat.mul_one]; omega
+      have e1' : p + E + 1 = (n + 1) * (E + 1) + 2 := by
+        rw [hp, Nat.add_mul]; omega
+      simp only [hne, if_false]
+      rw [e1] at hne ⊢
+      rw [ih _ _ _ e1' (by omega) (by omega)]
+      simp only [List.append_assoc, List.cons_append, List.nil_append]
+      congr 4
+      by_cases h2 : p + E + 1 > D
+      · simp only [h2, if_true, Nat.add_sub_cancel]
+        have : p = n * E + n + 2 := by rw [hp, Nat.mul_add, Nat.mul_one]
+        have hc : ((n * E : Nat) : Int) = (n : Int) * E := by simp
+        omega
+      · simp only [h2, if_false]; omega
+    · simp only [hpD, if_false, List.append_nil]
+
+def specF (D E : Nat) (i : Nat) : Option (Nat × Nat) :=
+  let p := i + 1
+  if 2 ≤ p ∧ p < D ∧ (p - 2) % (E + 1) = 0 then some (p, min E (D - p)) else none
+
+theorem spec_eq_specF (D E : Nat) : Spec.ptrmapPages D E = (List.range D).filterMap (specF D E) := rfl
+
+theorem spec_block (D E s m : Nat) (hs : 1 ≤ s) (hmod : (s - 1) % (E + 1) = 0) (hm : m ≤ E) :
+    (List.range' (s + 1) m).filterMap (specF D E) = [] := by
+  rw [List.filterMap_eq_nil_iff]
+  intro i hi
+  rw [List.mem_range'_1] at hi
+  unfold specF
+  have e : i + 1 - 2 = (s - 1) + (i - s) := by omega
+  have h : (i + 1 - 2) % (E + 1) ≠ 0 := by
+    rw [e, Nat.add_mod, hmod, Nat.zero_add, Nat.mod_mod, Nat.mod_eq_of_lt (by omega)]
+    omega
+  simp only [h, and_false, if_false]
+
+theorem spec_enum (D E : Nat) : ∀ (fuel s len : Nat), s + len = D → 1 ≤ s → (s - 1) % (E + 1) = 0 →
+    D < fuel + (s + 1) → (List.range' s len).filterMap (specF D E) = enum D E fuel (s + 1) := by
+  intro fuel
+  induction fuel with
+  | zero =>
+    intro s len h1 h2 h3 h4
+    have : len = 0 := by omega
+    subst this
+    rfl
+  | succ fuel ih =>
+    intro s len h1 h2 h3 h4
+    unfold enum
+    by_cases hs : s + 1 < D
+    · simp only [hs, if_true]
+      obtain ⟨len', rfl⟩ : ∃ l, len = l + 1 := ⟨len - 1, by omega⟩
+      rw [List.range'_succ]
+      have e0 : s + 1 - 2 = s - 1 := by omega
+      have hf : specF D E s = some (s + 1, min E (D - (s + 1))) := by
+        unfold specF
+        simp only [e0, h3, hs, and_true, if_true, show 2 ≤ s + 1 by omega]
+      rw [List.filterMap_cons_some hf]
+      congr 1
+      by_cases hl : len' ≤ E
+      · rw [spec_block D E s len' h2 h3 hl, enum_nil _ _ _ _ (by omega)]
+      · have e : len' = E + (len' - E) := by omega
+        rw [e, ← List.range'_append_1, List.filterMap_append, spec_block D E s E h2 h3 (Nat.le_refl _),
+          List.nil_append]
+        have e2 : s + 1 + E + 1 = (s + 1 + E) + 1 := rfl
+        rw [e2]
+        apply ih
+        · omega
+        · omega
+        · have : s + 1 + E - 1 = (s - 1) + (E + 1) := by omega
+          rw [this, Nat.add_mod_right, h3]
+        · omega
+    · simp only [hs, if_false]
+      rw [List.filterMap_eq_nil_iff]
+      intro i hi
+      rw [List.mem_range'_1] at hi
+      unfold specF
+      have : ¬ i + 1 < D := by omega
+      simp only [this, false_and, and_false, if_false]
+
+theorem spec_eq_enum (D E : Nat) (hD : 2 ≤ D) : Spec.ptrmapPages D E = enum D E (D + 1) 2 := by
+  rw [spec_eq_specF, List.range_eq_range']
+  obtain ⟨d, rfl⟩ : ∃ d, D = d + 1 := ⟨D - 1, by omega⟩
+  rw [List.range'_succ, List.filterMap_cons]
+  have : specF (d + 1) E 0 = none := by
+    unfold specF; simp
+  rw [this]
+  exact spec_enum (d + 1) E (d + 1 + 1) 1 d (by omega) (Nat.le_refl _) (by simp) (by omega)
+
+theorem next_ne (D E : Nat) (hmod : (D - 2) % (E + 1) ≠ 0) (n : Nat) : n * (E + 1) + 2 ≠ D := by
+  intro h
+  apply hmod
+  have : D - 2 = n * (E + 1) := by omega
+  rw [this, Nat.mul_mod_left]
+
+theorem total_enum (D E : Nat) (hmod : (D - 2) % (E + 1) ≠ 0) :
+    ∀ (fuel p n : Nat), p = n * (E + 1) + 2 → p < D → D < fuel + p →
+      (enum D E fuel p).foldl (fun s pe => s + 1 + pe.2) (p - 1) = D := by
+  intro fuel
+  induction fuel with
+  | zero => intro p n hp hD h0; omega
+  | succ fuel ih =>
+    intro p n hp hD _
+    unfold enum
+    simp only [hD, if_true, List.foldl_cons]
+    have e1' : p + E + 1 = (n + 1) * (E + 1) + 2 := by
+      rw [hp, Nat.add_mul]; omega
+    have hne := next_ne D E hmod (n + 1)
+    rw [← e1'] at hne
+    by_cases h2 : p + E + 1 < D
+    · have := ih _ _ e1' h2 (by omega)
+      refine Eq.trans ?_ this
+      congr 1
+      omega
+    · rw [enum_nil _ _ _ _ (by omega)]
+      simp only [List.foldl_nil]
+      omega
+
+theorem ptrmap_eq_spec (D ps : Nat) (_hps : 5 ≤ ps) (hD : 3 ≤ D)
+    (hlast : (D - 2) % (ps / 5 + 1) ≠ 0) :
+    ptrmapPlan D ps = .ok (Spec.ptrmapPages D (ps / 5)) := by
+  unfold ptrmapPlan
+  simp only [Generated.POINTER_MAP_ENTRY_LENGTH]
+  rw [loop_eq_enum D (ps / 5) hlast (by omega) (D + 1) 2 0 [] (by omega) (by omega) (by omega)]
+  have ht := total_enum D (ps / 5) hlast (D + 1) 2 0 (by omega) (by omega) (by omega)
+  simp only [List.nil_append, bind, Except.bind, Nat.add_one_sub_one] at ht ⊢
+  simp only [ht, ne_eq, not_true_eq_false, if_false, spec_eq_enum D _ (show 2 ≤ D by omega)]
+  rfl
+
+theorem loop_refused (D E K : Nat) (hD : D = K * (E + 1) + 2) :
+    ∀ (fuel n : Nat) (acc : List (Nat × Nat)), n < K → K < fuel + n →
+      ptrmapPlanLoop D E fuel (n * (E + 1) + 2) n acc = .error .parseError := by
+  intro fuel
+  induction fuel with
+  | zero => intro n acc h1 h2; omega
+  | succ fuel ih =>
+    intro n acc h1 h2
+    unfold ptrmapPlanLoop
+    have hlt : n * (E + 1) + 2 < D := by
+      rw [hD]
+      have := Nat.mul_lt_mul_of_lt_of_le h1 (Nat.le_refl (E + 1)) (by omega)
+      omega
+    simp only [hlt, if_true]
+    have e1 : (n + 1) * E + 2 + (n + 1) = (n + 1) * (E + 1) + 2 := by
+      rw [Nat.mul_add, Nat.mul_one]; omega
+    rw [e1]
+    by_cases hn : n + 1 = K
+    · have : (n + 1) * (E + 1) + 2 = D := by rw [hD, hn]
+      simp only [this, if_true]
+    · have : ¬ (n + 1) * (E + 1) + 2 = D := by
+        rw [hD]
+        intro h
+        have h' : (n + 1) * (E + 1) = K * (E + 1) := by omega
+        exact hn (Nat.eq_of_mul_eq_mul_right (by omega) h')
+      simp only [this, if_false]
+      exact ih _ _ (by omega) (by omega)
+
+theorem ptrmap_last_page_refused (D ps : Nat) (_hps : 5 ≤ ps) (hD : 2 ≤ D)
+    (hlast : (D - 2) % (ps / 5 + 1) = 0) :
+    ptrmapPlan D ps = .error .parseError := by
+  unfold ptrmapPlan
+  simp only [Generated.POINTER_MAP_ENTRY_LENGTH]
+  have hK : D = (D - 2) / (ps / 5 + 1) * (ps / 5 + 1) + 2 := by
+    have := (mod_zero_iff _ _).1 hlast
+    omega
+  generalize (D - 2) / (ps / 5 + 1) = K at hK
+  rcases K with _ | K
+  · have : D = 2 := by omega
+    subst this
+    rfl
+  · have := loop_refused D (ps / 5) (K + 1) hK (D + 1) 0 [] (by omega) (by
+      have : K + 1 ≤ (K + 1) * (ps / 5 + 1) := Nat.le_mul_of_pos_right _ (by omega)
+      omega)
+    simp only [Nat.zero_mul, Nat.zero_add] at this
+    rw [this]
+    rfl
+
+/-! ### overflow chains -/
+
+def PageOK (k : Nat) (r : Int) (pg : OvflPage) : Prop :=
+  0 < r ∧ (r ≤ k → pg.next = 0 ∧ pg.contentLength = r.toNat) ∧ ((k : Int) < r → pg.contentLength = k)
+
+theorem parseOverflowPage_ok (v : VersionIf) (hu : 4 < v.pageSize) (number : Nat) (r : Int) (pg : OvflPage)
+    (h : parseOverflowPage v number r = .ok pg) : PageOK (v.pageSize - 4) r pg := by
+  unfold parseOverflowPage at h
+  generalize hG : Generated.OVERFLOW_HEADER_LENGTH = g at h
+  have hg : g = 4 := by rw [← hG]; rfl
+  clear hG
+  simp only [bind, Except.bind, pure, Except.pure, decide_eq_true_eq] at h
+  split at h
+  · cases h
+  split at h
+  · cases h
+  split at h
+  · cases h
+  split at h
+  · cases h
+  split at h
+  · cases h
+  rename_i _ pv _ _ _ _ hr _ _ _ _ next _
+  have key : ∀ pg, pg = (⟨number, next, ((if r ≤ (v.pageSize : Int) - g then r + g else (v.pageSize : Int)) - g).toNat, pv⟩ : OvflPage) →
+      ¬ (r ≤ (v.pageSize : Int) - g ∧ next ≠ 0) → 
+      PageOK (v.pageSize - 4) r pg := by
+    intro pg hpg hlast
+    subst hpg
+    refine ⟨by omega, ?_, ?_⟩
+    · intro hle
+      have hle' : r ≤ (v.pageSize : Int) - g := by omega
+      simp only [hle', if_true]
+      simp only [hle', true_and, ne_eq, Decidable.not_not] at hlast
+      exact ⟨hlast, by congr 1; omega⟩
+    · intro hlt
+      have hle' : ¬ r ≤ (v.pageSize : Int) - g := by omega
+      simp only [hle', if_false]
+      omega
+  by_cases hlast : (r ≤ (v.pageSize : Int) - g ∧ next ≠ 0)
+  · rw [if_pos hlast] at h; cases h
+  rw [if_neg hlast] at h
+  by_cases hn : next ≠ 0
+  · rw [if_pos hn] at h
+    cases hv : v.pageVersion next with
+    | error e => rw [hv] at h; cases h
+    | ok nv =>
+      rw [hv] at h
+      simp only [] at h
+      by_cases hpv : pv ≠ nv
+      · rw [if_pos hpv] at h; cases h
+      · rw [if_neg hpv] at h
+        exact key _ (Except.ok.inj h).symm hlast
+  · rw [if_neg hn] at h
+    exact key _ (Except.ok.inj h).symm hlast
+
+/-- chain invariant: `cur` was parsed with `r` bytes remaining, `rest` are the following pages -/
+def ChainOK (k : Nat) : Int → OvflPage → List OvflPage → Prop
+  | r, cur, [] => PageOK k r cur ∧ cur.next = 0
+  | r, cur, nx :: rest => PageOK k r cur ∧ ChainOK k (r - k) nx rest
+
+theorem loop_chainOK (v : VersionIf) (hu : 4 < v.pageSize) :
+    ∀ (fuel : Nat) (cur : OvflPage) (r : Int) (acc ch : List OvflPage),
+      overflowChainLoop v fuel cur r acc = .ok ch → PageOK (v.pageSize - 4) r cur →
+      ∃ rest, ch = acc.reverse ++ rest ∧ ChainOK (v.pageSize - 4) r cur rest := by
+  intro fuel
+  induction fuel with
+  | zero => intro cur r acc ch h; unfold overflowChainLoop at h; cases h
+  | succ fuel ih =>
+    intro cur r acc ch h hc
+    unfold overflowChainLoop at h
+    by_cases hn : cur.next = 0
+    · rw [if_pos hn] at h
+      refine ⟨[], ?_, hc, hn⟩
+      rw [List.append_nil]; exact (Except.ok.inj h).symm
+    · rw [if_neg hn] at h
+      simp only [bind, Except.bind] at h
+      have hr : r - (v.pageSize : Int) + (Generated.OVERFLOW_HEADER_LENGTH : Nat) = r - ((v.pageSize - 4 : Nat) : Int) := by
+        simp only [Generated.OVERFLOW_HEADER_LENGTH]; omega
+      rw [hr] at h
+      cases hp : parseOverflowPage v cur.next (r - ((v.pageSize - 4 : Nat) : Int)) with
+      | error e => rw [hp] at h; cases h
+      | ok nx =>
+        rw [hp] at h
+        simp only [] at h
+        obtain ⟨rest, h1, h2⟩ := ih _ _ _ _ h (parseOverflowPage_ok v hu _ _ _ hp)
+        refine ⟨nx :: rest, ?_, hc, h2⟩
+        rw [h1, List.reverse_cons, List.append_assoc]; rfl
+
+theorem chain_chainOK (v : VersionIf) (hu : 4 < v.pageSize) (first : Nat) (ov : Int) (ch : List OvflPage)
+    (h : parseOverflowChain v first ov = .ok ch) :
+    ∃ cur rest, ch = cur :: rest ∧ ChainOK (v.pageSize - 4) ov cur rest := by
+  unfold parseOverflowChain at h
+  simp only [bind, Except.bind] at h
+  cases hp : parseOverflowPage v first ov with
+  | error e => rw [hp] at h; cases h
+  | ok p0 =>
+    rw [hp] at h
+    simp only [] at h
+    obtain ⟨rest, h1, h2⟩ := loop_chainOK v hu _ _ _ _ _ h (parseOverflowPage_ok v hu _ _ _ hp)
+    exact ⟨p0, rest, h1, h2⟩
+
+theorem ChainOK.head {k : Nat} {r : Int} {cur : OvflPage} {rest : List OvflPage}
+    (h : ChainOK k r cur rest) : PageOK k r cur := by
+  cases rest with
+  | nil => exact h.1
+  | cons nx rest => exact h.1
+
+theorem chainOK_length (k : Nat) : ∀ (rest : List OvflPage) (r : Nat) (cur : OvflPage),
+    ChainOK k (r : Int) cur rest → rest.length * k < r := by
+  intro rest
+  induction rest with
+  | nil =>
+    intro r cur h
+    have := h.head.1
+    simp only [List.length_nil, Nat.zero_mul]; omega
+  | cons nx rest ih =>
+    intro r cur h
+    have h2 : ChainOK k ((r : Int) - k) nx rest := h.2
+    have h3 := h2.head.1
+    have e : (r : Int) - k = ((r - k : Nat) : Int) := by omega
+    rw [e] at h2
+    have := ih _ _ h2
+    simp only [List.length_cons, Nat.add_mul, Nat.one_mul]
+    omega
+
+theorem chainOK_shape (k : Nat) : ∀ (rest : List OvflPage) (r : Nat) (cur : OvflPage),
+    ChainOK k (r : Int) cur rest → r ≤ (rest.length + 1) * k →
+    (∀ a, (((cur :: rest).map fun p => p.contentLength).foldl (· + ·) a) = a + r) ∧
+      (∀ p ∈ (cur :: rest).dropLast, p.contentLength = k) ∧
+      (∀ p, (cur :: rest).getLast? = some p → p.contentLength = r - rest.length * k ∧ p.next = 0) := by
+  intro rest
+  induction rest with
+  | nil =>
+    intro r cur h hle
+    simp only [List.length_nil, Nat.zero_add, Nat.one_mul] at hle
+    obtain ⟨⟨h0, h1, _⟩, hn⟩ := h
+    have := h1 (by omega)
+    refine ⟨?_, ?_, ?_⟩
+    · intro a
+      simp only [List.map_cons, List.map_nil, List.foldl_cons, List.foldl_nil, this.2, Int.toNat_natCast]
+    · intro p hp
+      simp only [List.dropLast_singleton, List.not_mem_nil] at hp
+    · intro p hp
+      simp only [List.getLast?_singleton, Option.some.injEq] at hp
+      subst hp
+      simp only [List.length_nil, Nat.zero_mul, Nat.sub_zero, this, Int.toNat_natCast, and_self]
+  | cons nx rest ih =>
+    intro r cur h hle
+    have h2 : ChainOK k ((r : Int) - k) nx rest := h.2
+    have h3 := h2.head.1
+    have e : (r : Int) - k = ((r - k : Nat) : Int) := by omega
+    rw [e] at h2
+    simp only [List.length_cons, Nat.add_mul, Nat.one_mul] at hle
+    obtain ⟨i1, i2, i3⟩ := ih _ _ h2 (by simp only [Nat.add_mul, Nat.one_mul]; omega)
+    have hc : cur.contentLength = k := h.1.2.2 (by omega)
+    refine ⟨?_, ?_, ?_⟩
+    · intro a
+      rw [List.map_cons, List.foldl_cons, i1, hc]
+      omega
+    · intro p hp
+      rw [List.dropLast_cons_cons] at hp
+      rcases List.mem_cons.1 hp with rfl | hp
+      · exact hc
+      · exact i2 p hp
+    · intro p hp
+      rw [List.getLast?_cons_cons] at hp
+      obtain ⟨j1, j2⟩ := i3 p hp
+      refine ⟨?_, j2⟩
+      rw [j1]
+      simp only [List.length_cons, Nat.add_mul, Nat.one_mul]
+      omega
+
+theorem chain_length_le (v : VersionIf) (hu : 4 < v.pageSize) (first : Nat) (ov : Nat) (ch : List OvflPage)
+    (h : parseOverflowChain v first (ov : Int) = .ok ch) :
+    0 < ov ∧ 1 ≤ ch.length ∧ ch.length ≤ Spec.overflowPages v.pageSize ov := by
+  obtain ⟨cur, rest, rfl, hc⟩ := chain_chainOK v hu first ov _ h
+  have h0 := hc.head.1
+  have hl := chainOK_length _ _ _ _ hc
+  refine ⟨by omega, by simp only [List.length_cons]; omega, ?_⟩
+  unfold Spec.overflowPages
+  rw [Nat.le_div_iff_mul_le (by omega)]
+  simp only [List.length_cons, Nat.add_mul, Nat.one_mul]
+  omega
+
+theorem chain_shape (v : VersionIf) (hu : 4 < v.pageSize) (first : Nat) (ov : Nat) (ch : List OvflPage)
+    (h : parseOverflowChain v first (ov : Int) = .ok ch)
+    (hlen : ch.length = Spec.overflowPages v.pageSize ov) :
+    ((ch.map fun p => p.contentLength).foldl (· + ·) 0) = ov ∧
+      (∀ p ∈ ch.dropLast, p.contentLength = v.pageSize - 4) ∧
+      (∀ p, ch.getLast? = some p → p.contentLength = Spec.lastOverflowFill v.pageSize ov ∧ p.next = 0) := by
+  obtain ⟨cur, rest, rfl, hc⟩ := chain_chainOK v hu first ov _ h
+  have h0 := hc.head.1
+  obtain ⟨c1, c2, c3⟩ := ceil_props (v.pageSize - 4) ov (by omega) (by omega)
+  unfold Spec.lastOverflowFill
+  unfold Spec.overflowPages at hlen ⊢
+  rw [← hlen] at c3 ⊢
+  simp only [List.length_cons] at c3
+  obtain ⟨i1, i2, i3⟩ := chainOK_shape _ _ _ _ hc c3
+  refine ⟨by rw [i1, Nat.zero_add], i2, ?_⟩
+  intro p hp
+  simpa only [List.length_cons, Nat.add_sub_cancel] using i3 p hp
+
+theorem unpackAt_no_rec (b : Buf) (lo : Int) (n : Nat) : unpackAt b lo n ≠ .error .recursionError := by
+  unfold unpackAt
+  simp only []
+  split <;> intro h <;> cases h
+
+theorem parseOverflowPage_no_rec (v : VersionIf)
+    (hv : ∀ p, v.pageVersion p ≠ .error .recursionError)
+    (ho : ∀ p, v.pageOffset p ≠ .error .recursionError)
+    (hd : ∀ p o n, v.getData p o n ≠ .error .recursionError) (number : Nat) (r : Int) :
+    parseOverflowPage v number r ≠ .error .recursionError := by
+  intro h
+  unfold parseOverflowPage at h
+  generalize Generated.OVERFLOW_HEADER_LENGTH = g at h
+  simp only [bind, Except.bind, pure, Except.pure, decide_eq_true_eq] at h
+  split at h
+  · rename_i heq; cases h; exact hv _ heq
+  split at h
+  · rename_i heq; cases h; exact ho _ heq
+  split at h
+  · cases h
+  split at h
+  · rename_i heq; cases h; exact hd _ _ _ heq
+  split at h
+  · rename_i heq; cases h; exact unpackAt_no_rec _ _ _ heq
+  rename_i next _
+  by_cases hlast : (r ≤ (v.pageSize : Int) - g ∧ next ≠ 0)
+  · rw [if_pos hlast] at h; cases h
+  rw [if_neg hlast] at h
+  by_cases hn : next ≠ 0
+  · rw [if_pos hn] at h
+    cases hv' : v.pageVersion next with
+    | error e => rw [hv'] at h; cases h; exact hv _ hv'
+    | ok nv =>
+      rw [hv'] at h
+      simp only [] at h
+      split at h <;> cases h
+  · rw [if_neg hn] at h
+    cases h
+
+theorem loop_no_rec (v : VersionIf) (hu : 4 < v.pageSize)
+    (hv : ∀ p, v.pageVersion p ≠ .error .recursionError)
+    (ho : ∀ p, v.pageOffset p ≠ .error .recursionError)
+    (hd : ∀ p o n, v.getData p o n ≠ .error .recursionError) :
+    ∀ (fuel : Nat) (cur : OvflPage) (r : Int) (acc : List OvflPage),
+      0 < r → r ≤ (fuel : Int) * ((v.pageSize - 4 : Nat) : Int) →
+      overflowChainLoop v fuel cur r acc ≠ .error .recursionError := by
+  intro fuel
+  induction fuel with
+  | zero => intro cur r acc h0 h1; simp only [Int.natCast_zero, Int.zero_mul] at h1; omega
+  | succ fuel ih =>
+    intro cur r acc h0 h1 h
+    unfold overflowChainLoop at h
+    by_cases hn : cur.next = 0
+    · rw [if_pos hn] at h; cases h
+    · rw [if_neg hn] at h
+      simp only [bind, Except.bind] at h
+      have hr : r - (v.pageSize : Int) + (Generated.OVERFLOW_HEADER_LENGTH : Nat) = r - ((v.pageSize - 4 : Nat) : Int) := by
+        simp only [Generated.OVERFLOW_HEADER_LENGTH]; omega
+      rw [hr] at h
+      cases hp : parseOverflowPage v cur.next (r - ((v.pageSize - 4 : Nat) : Int)) with
+      | error e =>
+        rw [hp] at h; cases h
+        exact parseOverflowPage_no_rec v hv ho hd _ _ hp
+      | ok nx =>
+        rw [hp] at h
+        simp only [] at h
+        have := (parseOverflowPage_ok v hu _ _ _ hp).1
+        refine ih _ _ _ this ?_ h
+        rw [Int.natCast_add, Int.add_mul] at h1
+        omega
+
+theorem chain_fuel_adequate (v : VersionIf) (hu : 4 < v.pageSize) (first : Nat) (ov : Int)
+    (hv : ∀ p, v.pageVersion p ≠ .error .recursionError)
+    (ho : ∀ p, v.pageOffset p ≠ .error .recursionError)
+    (hd : ∀ p o n, v.getData p o n ≠ .error .recursionError) :
+    parseOverflowChain v first ov ≠ .error .recursionError := by
+  intro h
+  unfold parseOverflowChain at h
+  simp only [bind, Except.bind] at h
+  cases hp : parseOverflowPage v first ov with
+  | error e => rw [hp] at h; cases h; exact parseOverflowPage_no_rec v hv ho hd _ _ hp
+  | ok p0 =>
+    rw [hp] at h
+    simp only [] at h
+    have h0 := (parseOverflowPage_ok v hu _ _ _ hp).1
+    refine loop_no_rec v hu hv ho hd _ _ _ _ h0 ?_ h
+    simp only [Generated.OVERFLOW_HEADER_LENGTH]
+    obtain ⟨n, rfl⟩ : ∃ n : Nat, ov = n := ⟨ov.toNat, by omega⟩
+    simp only [Int.toNat_natCast]
+    rw [← Int.natCast_mul]
+    have := Nat.lt_mul_div_succ n (show 0 < v.pageSize - 4 by omega)
+    have e : (n / (v.pageSize - 4) + 2) * (v.pageSize - 4) = (v.pageSize - 4) * (n / (v.pageSize - 4) + 1) + (v.pageSize - 4) := by
+      rw [Nat.add_mul, Nat.mul_add, Nat.mul_comm (v.pageSize - 4) (n / (v.pageSize - 4))]; omega
+    rw [e]
+    omega
+
 end SqliteDissect.Proofs.CellArith
